@@ -64,6 +64,10 @@ func (c *memberEventCoalescer) Flush(outCh chan<- Event) {
 		newEvent.Members = append(newEvent.Members, *cevent.Member)
 	}
 
+	// Start the next quantum empty, so a member is only reported again
+	// once a new event for it arrives
+	c.latestEvents = make(map[string]coalesceEvent)
+
 	// Send out those events
 	for _, event := range events {
 		outCh <- *event
